@@ -45,6 +45,8 @@ def trace_filter(code):
 
 
 def execute(script_name, api, chooser, stall=True, rerun=False, gate_points=None, window=None):
+    background = api.startswith('bg:')
+    base_api = api.split(':')[-1]
     gate_points = GATE_POINTS if gate_points is None else gate_points
     window = WINDOW_AFTER_STOP if window is None else window
     sched = vthreads.Scheduler(chooser, horizon=HORIZON, max_steps=30000, trace_filter=trace_filter, stall=stall)
@@ -118,11 +120,11 @@ def execute(script_name, api, chooser, stall=True, rerun=False, gate_points=None
             gate['event'].wait()
             sched.log('stop-call', api)
             try:
-                if api == 'agent':
+                if base_api == 'agent':
                     agent_box[0].request_stop()
-                elif api == 'stop_job':
+                elif base_api == 'stop_job':
                     jc.stop_job('j')
-                elif api == 'stop_current':
+                elif base_api == 'stop_current':
                     jc.stop_current()
                 else:
                     jc.clear_queue()
@@ -136,7 +138,7 @@ def execute(script_name, api, chooser, stall=True, rerun=False, gate_points=None
         agent_box = [None]
         rq = shim.Thread(target=requester)
         rq.start()
-        agent_box[0] = jc.add_job(job, 'j')
+        agent_box[0] = jc.spawn_job(job, 'j') if background else jc.add_job(job, 'j')
         gate['armed'] = True
         jc.add_job(follower, 'f')
         for _ in range(int(HORIZON) + 5):
@@ -163,6 +165,7 @@ def execute(script_name, api, chooser, stall=True, rerun=False, gate_points=None
 
 def judge(script_name, api, obs, rerun=False):
     """-> None | (kind, detail)"""
+    api = api.split(':')[-1]
     ev = obs['events']
     what = [e[2] for e in ev]
     stop_ret = what.index('stop-ret') if 'stop-ret' in what else None
@@ -274,6 +277,10 @@ def plan(tier):
                     out.append((s, api, 0, 1, rr, GATE_POINTS, WINDOW_AFTER_STOP))
             else:
                 out.append((s, api, 1, 16, rr, GATE_POINTS, WINDOW_AFTER_STOP))
+    # the script as a background job (spawn_job) next to a queued follower
+    for s in ('infinite', 'timed', 'time-of-day'):
+        for api in ('bg:stop_job', 'bg:stop_all'):
+            out.append((s, api, 0 if tier == 'quick' else 1, 1 if tier == 'quick' else 16, False, GATE_POINTS, WINDOW_AFTER_STOP))
     if tier == 'thorough':
         out.append(('timed', 'stop_job', 2, 16, False, 24, 20))
         out.append(('time-of-day', 'stop_all', 2, 16, False, 24, 20))
